@@ -201,6 +201,23 @@ def check_convention(ctx):
                       "val >= edge, val == edge (closed lower, open upper bound); with this comparison a value exactly on an edge goes "
                       "to the cell below it" % (A.src(c), sym), detail="val %s edge" % sym, construct="compare:%s" % A.src(c))
     ctx.instances_floor("C06-c", n, 6, "value/edge comparison sites")
+    # the operands compared are the caller's own: the coordinate and the edges are not replaced by converted copies
+    for par, what in ((val, "coordinate"), (arr, "edges")):
+        rebinds = [s for s in A.walk_local(fn) if isinstance(s, (ast.Assign, ast.AugAssign, ast.For, ast.With))
+                   and any(par in A.target_names(t) for t in A.assigned_targets(s))]
+        for s in rebinds:
+            v = getattr(s, "value", None)
+            lossy = isinstance(v, ast.Call) and A.call_name(v) in ("float", "int", "round", "abs", "float32", "float64", "array",
+                                                                    "asarray", "trunc", "floor", "ceil", "list", "tuple", "sorted")
+            if lossy or isinstance(s, ast.AugAssign) or isinstance(v, ast.BinOp):
+                ctx.violation("C06-c", s, "get_bin_on_value_1d replaces the %s by `%s` before comparing it with the edges: the cell is "
+                              "then chosen for a converted copy (a float conversion rounds integers beyond 2**53, so a value lands in "
+                              "a neighbouring cell), not for the value that was filled" % (what, A.src(s)),
+                              construct="rebound-operand:%s" % par)
+            else:
+                ctx.unknown("C06-c", s, "get_bin_on_value_1d rebinds its %s parameter (`%s`)" % (what, A.short(s, 60)))
+        if not rebinds:
+            ctx.ok("C06-c", fn, "the %s compared is the parameter as given (never rebound)" % what)
 
 
 def check_edges_guard(ctx):
@@ -254,6 +271,7 @@ def check(ctx):
 
 
 VARIANTS = [
+    M("value-float-once", "lena/structures/hist_functions.py", "    ind_min = 0\n    ind_max = len(arr) - 1\n    while True:\n        if ind_max - ind_min <= 1:", "    ind_min = 0\n    ind_max = len(arr) - 1\n    val = float(val)\n    while True:\n        if ind_max - ind_min <= 1:", ["C06-c"]),
     M("drop-overflow-accounting", "lena/structures/histogram.py", "        try:\n            subarr[ind] += weight\n        except IndexError:\n            self.n_out_of_range += weight\n            return",
       "        try:\n            subarr[ind] += weight\n        except IndexError:\n            return", ["C06-a"]),
     M("double-weight", "lena/structures/histogram.py", "        if ind < 0:\n            self.n_out_of_range += weight\n            return\n\n        try:\n            subarr[ind] += weight",
